@@ -40,7 +40,7 @@ ASSUMPTIONS = [
     "no Condon-Shortley phase, orthonormal, rows m = 0,1,-1,...,l,-l (Horton 2)",
     "numpy cos/sin/arctan2, mpmath arithmetic and scipy.special.eval_legendre are correct",
     "polar angles in (pi,2pi) mod 2pi are outside the asserted region (implementations differ by (-1)^m there; docs promise only periodicity)",
-    "within |sin phi| <= 1e-3 of a pole only finiteness of the polar derivative is asserted (documented convention drops the cotangent term at the pole)",
+    "within |tan phi| < 5e-10 of a pole only finiteness of the polar derivative is asserted (documented convention drops the cotangent term for |tan phi| < 1e-10)",
     "convert_cart_to_sph round trip: |c + r u(theta,phi) - p| <= 100 eps (|p| + |c| + r) everywhere, including next to the polar axis "
     "(the former arccos(z/r) form lost half the digits there: fixed defect, pinned regression cases)",
 ]
@@ -155,6 +155,37 @@ def _unit_values(l_max, th, ph=None):
     return unit
 
 
+def body_values_many(case, ctx):
+    """The same comparison on MANY points at once (hundreds to thousands): vectorised/blocked evaluation paths."""
+    from grid.utils import generate_real_spherical_harmonics as y_rec
+    from grid.utils import generate_real_spherical_harmonics_scipy as y_sci
+
+    l_max, n = int(case["l_max"]), int(case["n"])
+    rng = np.random.default_rng(int(case["dseed"]))
+    th = rng.uniform(-20.0, 20.0, n)
+    ph = rng.uniform(0.0, math.pi, n)
+    special = [0.0, math.pi / 2, 1e-9, 1.0, 2.0, 3.0, 0.5]
+    for k, v in enumerate(special):  # a few special polar angles spread over the array (incl. its last block)
+        ph[(k * n) // len(special)] = v
+    ph[-1] = math.pi / 3
+    _lclass(ctx, l_max)
+    ctx.cls("many-points", f"block-elements:{'>2^22' if n * (l_max + 1) * (2 * l_max + 1) > 2**22 else '<=2^22'}")
+    ctx.nt(l_max >= 2)
+    ref = sph.real_sph_harm_ld(l_max, th, ph)
+    a = np.asarray(y_rec(l_max, th.copy(), ph.copy()), dtype=float)
+    b = np.asarray(y_sci(l_max, th.copy(), ph.copy()), dtype=float)
+    _cmp(ctx, a, ref, _unit_values(l_max, th), C_VAL, "recursive-vs-definition", f"generate_real_spherical_harmonics(l_max={l_max}) on {n} points")
+    _cmp(ctx, b, ref, _unit_values(l_max, th, ph), C_VAL, "scipy-vs-definition", f"generate_real_spherical_harmonics_scipy(l_max={l_max}) on {n} points")
+
+
+def _many_strategy():
+    def for_l(l_max):
+        cap = max(50, int(6e6 // (l_max + 1) ** 2))
+        return st.fixed_dictionaries({"l_max": st.just(l_max), "n": st.integers(min(200, cap), min(6000, cap)), "dseed": st.integers(0, 2**31 - 1)})
+
+    return st.one_of(st.integers(2, 12), st.integers(13, 40), st.integers(41, 80)).flatmap(for_l)
+
+
 # ---------------------------------------------------------------------------
 # values: both implementations vs the float recurrence and vs each other
 # ---------------------------------------------------------------------------
@@ -262,7 +293,12 @@ def body_deriv(case, ctx):
     ctx.check(bool(np.all(np.isfinite(out))), "derivative-not-finite", f"non-finite derivative at l_max={l_max} theta={th.tolist()} phi={ph.tolist()}")
     ls, ms = _lm(l_max)
     s_l = np.sqrt((2 * ls + 1) / (4 * math.pi))
-    away = np.abs(np.sin(ph)) > 1e-3
+    # the polar derivative is asserted everywhere outside the library's documented pole mask (|tan phi| < 1e-10,
+    # where the cotangent term is dropped by convention), with a 5x guard band; the error model grows like 1/sin(phi)
+    with np.errstate(invalid="ignore", divide="ignore"):
+        away = np.abs(np.tan(ph)) >= 5e-10
+    if np.any(away & (np.abs(np.sin(ph)) <= 1e-3)):
+        ctx.cls("deriv:polar-derivative-compared-within-1e-3-of-a-pole")
     ctx.nt(l_max >= 2 and bool(np.any(away)))
     rt = np.empty((nrow, len(th)))
     rp = np.empty((nrow, len(th)))
@@ -532,6 +568,7 @@ def subchecks(tier, seed):
     hi = 200 if q else 400
     return [
         SubCheck("values", body_values, strategy=_values_strategy(hi), examples=2400 if q else 12000, cases=_pinned_values(), shards=16 if q else 32),
+        SubCheck("values-many", body_values_many, strategy=_many_strategy(), examples=64 if q else 600, shards=16, shrink=False),
         SubCheck("mp", body_mp, strategy=_mp_strategy(40 if q else 60), examples=400 if q else 3000, shards=16),
         SubCheck("addition", body_addition, strategy=_addition_strategy(hi), examples=1200 if q else 6000, shards=16),
         SubCheck("deriv", body_deriv, strategy=_deriv_strategy(12 if q else 30), examples=600 if q else 5000, shards=16),
